@@ -178,6 +178,22 @@ def run(rep, tier="quick", replay=None, evidence_dir=None, collect_only=False):
             rep.ob("C03.R3", "flush writes num_values as the block count", s1.endswith("num_values"), "first long written is %s" % s1, f.loc(raws[0][0]))
             rep.ob("C03.R3", "flush writes the compressed length as the block size", s2 == f.pldesc(lens[0][1]["dest"]) or s2 == "len()", "second long written is %s" % s2, f.loc(raws[1][0]))
             rep.ob("C03.R3", "num_values = 0 after the marker write and before Ok", f.dominates(mark[0][0], nv0[0][0]), "", f.loc(nv0[0][0]))
+            # once the marker write succeeded the block is in the sink: the pending block must be reset on *every* path
+            # from there to any return, also the error returns of later sink operations (else a later call writes it again)
+            me = result_edges(f, mark[0][1]["dest"]["l"])
+            okr = False
+            if len(me) == 1 and me[0][1] is not None:
+                start = me[0][1]
+                for resets in ([clr[0][0]], [nv0[0][0]]):
+                    pass
+                def all_paths_pass(start, must):
+                    # is a return reachable from start while avoiding `must`?
+                    seen = f.reachable(start, avoid={must})
+                    return not any(r in seen for r in f.return_blocks())
+                okr = all_paths_pass(start, clr[0][0]) and all_paths_pass(start, nv0[0][0])
+            rep.ob("C03.R3", "after the marker write succeeded every exit (also error exits) passes buffer.clear() and num_values = 0 reset", okr,
+                   "a sink operation that can fail sits between the marker write and the reset: on its error the block stays pending although the sink already has it, and the next flush writes it again",
+                   f.loc(mark[0][0]))
             # early exit: the switch on num_values == 0 leads to a region without sink writes
             early_ok = False
             for bi in range(f.n):
